@@ -246,10 +246,10 @@ def subgeo(rng, g, ncols):
 
 def gen_pairs(ctx, rng):
     """yields (kind, source geometry, target geometry)"""
-    n_rect = ctx.n(60, 700)
-    n_self = ctx.n(14, 120)
-    n_ref = ctx.n(10, 100)
-    n_shift = ctx.n(16, 150)
+    n_rect = ctx.n(90, 700)
+    n_self = ctx.n(18, 120)
+    n_ref = ctx.n(14, 100)
+    n_shift = ctx.n(20, 150)
     combos = [(a, b) for a in range(3) for b in range(3)]
     k = 0
     # coarse / fine rectangular pairs: every atmosphere combination x conventions
@@ -335,6 +335,40 @@ def gen_pairs(ctx, rng):
             t = with_atm(g, rng.randrange(3))
             resurface(rng, t)
             yield 'shipped-sub-resurfaced:' + nm, with_atm(g, rng.randrange(3)), t
+
+
+def gen_outside(ctx, rng):
+    """pairs OUTSIDE the theorems' hypotheses (degenerate but constructible geometries): correspondence only,
+    never shown to the oracle.  They check that the model follows the code where GeoInv fails."""
+    import mulgrids
+    for i in range(ctx.n(12, 60)):
+        conv = rng.choice([0, 3]) if i % 6 in (1, 2, 3) else rng.randrange(4)
+        atm_s, atm_t = rng.randrange(3), rng.randrange(3)
+        s = rect(rng, conv, atm_s, nx=rng.randint(1, 3), ny=rng.randint(1, 2), nz=rng.randint(2, 4))
+        t = rect_cover(rng, conv, atm_t, s)
+        mode = i % 6
+        if mode == 0:      # a source column without any block: surface at the bottom of the model
+            c = rng.choice(s.columnlist)
+            c.surface = s.layerlist[-1].bottom - rng.choice([0., 1.])
+            s.set_column_num_layers(c)
+            s.setup_block_name_index(); s.setup_block_connection_name_index()
+            yield 'outside:source-column-without-blocks', s, t
+        elif mode in (1, 2, 3):    # names that fix_blockname changes (column names ending in a digit, conventions 0/3)
+            for g in ([t] if mode == 1 else [s] if mode == 2 else [s, t]):
+                for k, cc in enumerate(list(g.columnlist)):
+                    g.rename_column(cc.name, ('%3d' % (k + 1)) if rng.random() < 0.7 else cc.name)
+                g.setup_block_name_index(); g.setup_block_connection_name_index()
+            yield 'outside:fix_blockname-fires', s, t
+        elif mode == 4:    # source without underground layers
+            s2 = quiet(mulgrids.mulgrid().rectangular, [10.] * 2, [10.], [], convention=conv, atmos_type=atm_s)
+            yield 'outside:source-without-layers', s2, t
+        else:              # stale / inconsistent num_layers on a source column
+            c = rng.choice(s.columnlist)
+            c.surface = s.layerlist[rng.randint(1, len(s.layerlist) - 1)].bottom
+            if rng.random() < 0.5:
+                c.num_layers = rng.randint(0, len(s.layerlist) + 2)
+            s.setup_block_name_index()
+            yield 'outside:stale-num_layers', s, t
 
 
 # ------------------------------------------------------------------ exact geometry helpers (oracle side)
@@ -916,7 +950,51 @@ def explicit_maps(s, t):
     return dict(m), dict(cm)
 
 
+ANCHORED = [('mulgrids', 'mulgrid', ['column_mapping', 'layer_mapping', 'block_mapping', 'column_surface_layer',
+                                       'column_surface_layer_index']),
+            ('t2incons', 't2incon', ['transfer_from']),
+            ('t2data', 't2data', ['transfer_from', 'transfer_rocktypes_from', 'transfer_generators_from'])]
+
+
 def run(ctx, scale=1.0, only_oracle=False):
+    """thorough tier: the same run under `coverage`, to record which lines of the anchored functions were executed"""
+    cov = None
+    if not ctx.quick and not only_oracle:
+        try:
+            import coverage
+            cov = coverage.Coverage(data_file=None, include=[str(core.REPO / f) for f in ('mulgrids.py', 't2incons.py', 't2data.py')])
+            cov.start()
+        except Exception as e:
+            ctx.notes.append('coverage unavailable: %s' % e)
+            cov = None
+    try:
+        res = run_inner(ctx, scale, only_oracle)
+    finally:
+        if cov is not None:
+            cov.stop()
+    if cov is not None:
+        import inspect, importlib
+        reach = {}
+        for modname, cls, fns in ANCHORED:
+            mod = importlib.import_module(modname)
+            try:
+                _, executable, _, missing, _ = cov.analysis2(mod.__file__)
+            except Exception as e:
+                ctx.notes.append('coverage analysis failed: %s' % e)
+                continue
+            executable, missing = set(executable), set(missing)
+            for fn in fns:
+                src, start = inspect.getsourcelines(getattr(getattr(mod, cls), fn))
+                lines = set(range(start + 1, start + len(src))) & executable      # body lines (the def line runs at import)
+                miss = sorted(lines & missing)
+                reach['%s.%s.%s' % (modname, cls, fn)] = {'executable_lines': len(lines), 'executed': len(lines) - len(miss),
+                                                         'not_executed': miss}
+        res.reach = reach
+        EVIDENCE_EXTRA['measured_reach'] = reach
+    return res
+
+
+def run_inner(ctx, scale=1.0, only_oracle=False):
     import importlib, mulgrids, t2incons, t2data, t2grids
     res = Result()
     res.rule = ('pairs (source geometry, target geometry) built with the real API: coarse/fine rectangular pairs with dyadic spacings and '
@@ -1163,6 +1241,38 @@ def run(ctx, scale=1.0, only_oracle=False):
                 if dres['gens'][0] == 'ok' and not gens_equal(canon_gens_real(new, dat), dres['gens'][1]):
                     disagree('data_transfer', f_dat, case_of(kind, s, t, {'part': 'transfer_from vs transfer_generators_from'}), 'n/a', 'differ')
 
+    # --- pairs outside the hypotheses: correspondence only
+    if ctx.model_ok and not only_oracle:
+        f_out = res.facet('block_mapping_outside_hypotheses')
+        for kind, s, t in gen_outside(ctx, ctx.rng('outside')):
+            res.count('kind:' + kind)
+            try:
+                m, cm = quiet(s.block_mapping, t, True)
+                real = ('ok', m, cm)
+            except Exception as e:
+                real = ('exc', type(e).__name__)
+            res.count(kind + ':' + (real[0] if real[0] == 'ok' else real[1]))
+            tie = False
+            if real[0] == 'ok':
+                sv = GeoView.__new__(GeoView)
+                sv.centres = [fcentre(c) for c in s.columnlist]
+                tie = any(len(nearest_info(sv, fcentre(c))[1]) > 1 for c in t.columnlist)
+            qt = q_tokens(s, t, real, {'tie': tie})
+
+            def c_out(line, kind=kind, s=s, t=t, real=real):
+                f_out['cases'] += 1
+                mo, re_ = canon_bm_model(line), canon_bm_real(real)
+                if mo != re_:
+                    disagree('block_mapping_outside_hypotheses', f_out, case_of(kind, s, t), mo[0] if mo[0] == 'ok' else mo, re_[0] if re_[0] == 'ok' else re_)
+            ask(['bm'] + qt + geo_tokens(s) + geo_tokens(t), c_out)
+
+            def c_outhyp(line, kind=kind, s=s, t=t, real=real):
+                a = line.split()
+                hold = a[0] == '1' and a[1] == '1' and a[2] == '1'
+                res.count(kind + ':hypotheses ' + ('hold' if hold else 'fail (as intended)'))
+                if hold and real[0] != 'ok':
+                    disagree('block_mapping_outside_hypotheses', f_out, case_of(kind, s, t), 'hypotheses of block_mapping_total_partial hold', real)
+            ask(['hyp'] + geo_tokens(s) + geo_tokens(t), c_outhyp)
     if reqs:
         replies = core.run_driver('drv_c19', reqs)
         for line, consume in zip(replies, post):
